@@ -682,20 +682,43 @@ def replay(ctx, kind, cases):
     ctx.mismatch(kind, m['case'], m['sig'], m['detail'])
 
 
-def replay_any(items):
-  """items: [kind, case] pairs of all machines (one worker pool, one jax import per worker)."""
+def replay_bins(bins):
+  """bins: lists of [kind, case] pairs; a worker receives whole bins (see _bins)."""
+  try:      # the generic worker pins itself to core i; several checks running at once then share
+    os.sched_setaffinity(0, range(os.cpu_count() or 1))   # the first few cores.  Let the OS place us.
+  except (OSError, AttributeError):
+    pass
   out = []
-  for kind, case in items:
-    for m in globals()[_KINDS[kind][1]]([case]):
-      m['kind'] = kind
-      out.append(m)
+  for items in bins:
+    for kind, case in items:
+      for m in globals()[_KINDS[kind][1]]([case]):
+        m['kind'] = kind
+        out.append(m)
   return out
 
 
-def hash_case(kc):
-  import hashlib
-  import json
-  return hashlib.md5(json.dumps(kc, sort_keys=True).encode()).hexdigest()
+_COST = {'dict': 0.5, 'array': 30.0, 'attrs': 3.0, 'dataset': 5.0, 'resample': 50.0}
+
+
+def _bins(items, nproc):
+  """Packs the cases into nproc bins.  Eager jax compiles one executable per distinct shape
+  signature and workers do not share that cache, so cases that share signatures are kept together
+  (same array op and leaf count, same spectral layout) and whole groups are bin-packed by cost."""
+  groups = {}
+  for kind, c in items:
+    if kind == 'array':
+      key = (kind, c['op'], len(c['shapes']), c['axis'] if c['op'] in ('split', 'splitaxis') else 0)
+    elif kind == 'resample':
+      key = (kind, c['mult'], c['src']['M'])
+    else:
+      key = (kind, 0)
+    groups.setdefault(key, []).append([kind, c])
+  bins = [[0.0, []] for _ in range(nproc)]
+  for key, g in sorted(groups.items(), key=lambda kg: -_COST[kg[0][0]] * len(kg[1])):
+    b = min(bins, key=lambda x: x[0])
+    b[0] += _COST[key[0]] * len(g)
+    b[1].extend(g)
+  return [b[1] for b in bins if b[1]]
 
 
 def _defect_class(c):
@@ -729,9 +752,8 @@ def run(ctx):
     if not r.cases:
       raise common.MachineryError(f'{module}: no cases exported')
     items += [[kind, c] for c in r.cases]
-  # deterministic interleaving so that every worker gets the same mix of cheap and costly cases
-  items.sort(key=lambda kc: hash_case(kc))
-  res = common.parallel_map('c19', 'replay_any', items, nproc=nproc, tag='all', outdir=os.path.join(ctx.out, 'par'))
+  bins = _bins(items, nproc)
+  res = common.parallel_map('c19', 'replay_bins', bins, nproc=len(bins), tag='all', outdir=os.path.join(ctx.out, 'par'))
   for m in res:
     ctx.mismatch(m['kind'], m['case'], m['sig'], m['detail'])
   for kind in _KINDS:
